@@ -99,4 +99,7 @@ InWindowOrGone == \A k \in Threads : bg[k] = "done" =>
                      \/ Cardinality({j \in Threads : j > k /\ bg[j] \in {"locked", "done"}}) >= Count
 \* every temporary file is eventually archived (or evicted from the window): none is orphaned
 NoOrphan == \A k \in Threads : (bg[k] = "spawned") ~> (bg[k] = "done")
+\* (A rotation that fails on its thread tells nobody, and what the window looks like afterwards is not specified here.
+\* One statement holds whatever the thread did, and the replay checks it in histories with a directory in the way of
+\* an archive: the newest acknowledged record is in a file.)
 =============================================================================
